@@ -83,7 +83,18 @@ deriving DecidableEq, Repr
 inductive DescArg | nonobj | obj (d : Desc)
 deriving DecidableEq, Repr
 
+/-- objects the runtime creates with specific attributes (start objects of a history) -/
+inductive Kind
+  | fproto   -- the `prototype` object of a script function `function(p,q){}`
+  | func     -- that function object itself
+  | terr     -- `new TypeError('m')`
+  | err      -- `new Error('m')`
+  | regexp   -- `/x/g`
+  | date     -- `new Date(0)`
+deriving DecidableEq, Repr
+
 inductive Op
+  | native (k : Kind)
   | put (strict : Bool) (a : Addr) (n : Name) (v : Val)
   | del (strict : Bool) (a : Addr) (n : Name)
   | defn (a : Addr) (n : Name) (d : DescArg)
@@ -134,8 +145,19 @@ deriving DecidableEq, Repr
 /-- the property names every observation vector ranges over -/
 def obsNames : List Name := [0, 1, 2]
 
-/-- what function `k` returns when called as a getter with `this = O[a]` (harness convention) -/
-def getterResult (k : Fn) (a : Addr) : Val := 103 + 10 * a + k
+/-- the names observed on one object: a, b, c and then its own keys in order -/
+def obsNamesFor (keys : List Name) : List Name := obsNames ++ keys.filter (fun k => !obsNames.contains k)
+
+/-- what function `k` returns when called as a getter with `this = O[a]` (harness convention);
+    functions ≥ 900 are the runtime's own getters (`caller`, `stack`), whose result is opaque (997) -/
+def getterResult (k : Fn) (a : Addr) : Val := if k ≥ 900 then 997 else 103 + 10 * a + k
+
+/-! ### name and value codes of the runtime-created start objects
+    names: 3 constructor, 4 prototype, 5 length, 6 name, 7 caller, 8 message, 9 stack, 10 lastIndex,
+    11 source, 12 global, 13 ignoreCase, 14 multiline.
+    values: 995 false, 996 true, 997 opaque (null, unregistered objects), (strings are opaque too),
+    `special a j` = the j-th object registered when O[a] was created (0 the function, 2 its prototype). -/
+def special (a : Addr) (j : Nat) : Val := 1000 + 10 * a + j
 
 /-! ### property.go: modes -/
 
@@ -461,7 +483,30 @@ def freezeLoop (o : MObj) : List Name → MObj × Bool
         | some o' => freezeLoop o' ns
       else freezeLoop o ns
 
+/-- the start objects as otto creates them (address `a` = index the object gets in O):
+    global.go:191-199 newNodeFunction (prototype 0o100, constructor 0o101), type_function.go:115-144
+    newNodeFunctionObject (name 0o000, length 0o000, caller accessor mode 0o000, in this order),
+    type_error.go:3-24 newErrorObject (message 0o101, stack accessor mode 0o001), global.go:174-179 newError
+    (`new Error` also gets an own `name` 0o101; the NativeError constructors do not),
+    type_regexp.go newRegExpObject (global, ignoreCase, multiline 0o000, lastIndex 0o100, source 0o000),
+    type_date.go (no own properties).  All are classObject objects. -/
+def nativeObj (k : Kind) (a : Addr) : MObj :=
+  match k with
+  | .fproto => ⟨none, true, [(3, ⟨.val (special a 0), ⟨.on, .off, .on⟩⟩)]⟩
+  | .func => ⟨none, true,
+      [(6, ⟨.val 997, ⟨.off, .off, .off⟩⟩), (5, ⟨.val 5, ⟨.off, .off, .off⟩⟩),
+       (7, ⟨.gs (.fn 900) .nil, ⟨.off, .off, .off⟩⟩), (4, ⟨.val (special a 2), ⟨.on, .off, .off⟩⟩)]⟩
+  | .terr => ⟨none, true,
+      [(8, ⟨.val 997, ⟨.on, .off, .on⟩⟩), (9, ⟨.gs (.fn 900) .nil, ⟨.off, .off, .on⟩⟩)]⟩
+  | .err => ⟨none, true,
+      [(8, ⟨.val 997, ⟨.on, .off, .on⟩⟩), (9, ⟨.gs (.fn 900) .nil, ⟨.off, .off, .on⟩⟩), (6, ⟨.val 997, ⟨.on, .off, .on⟩⟩)]⟩
+  | .regexp => ⟨none, true,
+      [(12, ⟨.val 996, ⟨.off, .off, .off⟩⟩), (13, ⟨.val 995, ⟨.off, .off, .off⟩⟩), (14, ⟨.val 995, ⟨.off, .off, .off⟩⟩),
+       (10, ⟨.val 1, ⟨.on, .off, .off⟩⟩), (11, ⟨.val 997, ⟨.off, .off, .off⟩⟩)]⟩
+  | .date => ⟨none, true, []⟩
+
 def step (h : MHeap) : Op → StepRes
+  | .native k => (h ++ [nativeObj k h.length], .ok, [])
   -- cmpl_evaluate_expression.go:174,254: member expressions always build the property reference
   -- with strict = false ("use strict" parses but does nothing, otto.go:131)
   | .put _strict a n v => put h a n v false
@@ -560,7 +605,7 @@ def observeObj (h : MHeap) (a : Addr) (o : MObj) : ObjObs :=
     keys := enumerate o false
     names := enumerate o true
     forin := forIn h (fuel h) (some a) []
-    per := obsNames.map (observeName h a o) }
+    per := (obsNamesFor (akeys o.props)).map (observeName h a o) }
 
 def observeFrom (h : MHeap) : Nat → List MObj → List ObjObs
   | _, [] => []
